@@ -19,6 +19,7 @@ import sys
 REPO = os.environ.get("VERIF_REPO", "/repo")
 
 _mod_cache: dict[str, tuple[ast.Module, str]] = {}
+MUTATIONS: list = []      # canaries: (file suffix, old text, new text) applied to the source before parsing
 
 
 def use_repo():
@@ -38,6 +39,11 @@ def module_ast(filename: str):
     if filename not in _mod_cache:
         with open(filename, encoding="utf-8") as f:
             src = f.read()
+        for (suffix, old, new) in MUTATIONS:
+            if filename.endswith(suffix):
+                if old not in src:
+                    raise LookupError(f"canary pattern not found in {filename}: {old!r}")
+                src = src.replace(old, new, 1)
         tree = ast.parse(src, filename)
         for node in ast.walk(tree):
             for child in ast.iter_child_nodes(node):
